@@ -15,11 +15,13 @@ Ltac spec_red_in H := lazy -[Rplus Rmult Rminus Ropp Rdiv Rinv IZR sqrt not] in 
 Ltac nonzero :=
   repeat split;
   first [ apply sqrt2_neq0 | apply sqrt3_neq0 | assumption | lra
-        | match goal with H : _ <> 0 |- _ <> 0 => let E := fresh in intro E; apply H; first [ timeout 100 nsatz_tac | generalize sqrt2_sq; intro; timeout 200 nsatz_tac ] end ].
-(* the single closing tactic: identities of rational functions over Q[sqrt 2, sqrt 3], whatever their shape *)
+        | match goal with H : _ <> 0 |- _ <> 0 => let E := fresh in intro E; apply H; first [ timeout 600 nsatz_tac | generalize sqrt2_sq; intro; timeout 1200 nsatz_tac ] end ].
+(* the single closing tactic: identities of rational functions over Q[sqrt 2, sqrt 3], whatever their shape.
+   Coq's `timeout` counts wall-clock seconds: the limits only stop a runaway search and are an order of magnitude
+   above the CPU time of the slowest obligation (a few seconds), because the machine may be heavily shared *)
 Ltac comp_eq :=
   first [ reflexivity
-        | timeout 600 (field_simplify_eq; [ ring [sqrt2_sq sqrt3_sq sqrt6_sq] | nonzero .. ]) ].
+        | timeout 3000 (field_simplify_eq; [ ring [sqrt2_sq sqrt3_sq sqrt6_sq] | nonzero .. ]) ].
 Ltac prove_comp f :=
   intros; unfold f; spec_red;
   repeat match goal with H : _ <> _ |- _ => progress spec_red_in H end;
